@@ -77,8 +77,8 @@ def check_case(case):
     d = case['d']
     rng = np.random.default_rng(case['seed'] + 17)
     tests = []          # (name, z, detail)
-    n_s = case.get('n_samples', 60000)
-    M = case.get('n_ref', 300000)
+    n_s = case.get('n_samples', 120000)
+    M = case.get('n_ref', 600000)
     pool = NautilusPool(2) if case.get('pool') else None
     try:
         if isinstance(b, Ellipsoid):
